@@ -400,15 +400,23 @@ def run(check):
   agg = repo.cls('carbon.routers', 'AggregatedConsistentHashingRouter').methods.get('getDestinations')
   if agg is not None:
     fns.append(agg)
+  rule_pure(check, r_pu, fns)
+
+
+def rule_pure(check, r_pu, fns):
+  """the listed functions use no randomness, clock or state they write themselves (shared with C06)"""
   for f in fns:
     bad = []
     for n in walk_no_nested(f.node, include_self=False):
       if isinstance(n, ast.Call) and (dotted(n.func) or '').split('.')[-1] in IMPURE:
         bad.append(n)
-      if isinstance(n, (ast.Assign, ast.AugAssign)):
-        for t in (n.targets if isinstance(n, ast.Assign) else [n.target]):
+      if isinstance(n, (ast.Assign, ast.AugAssign, ast.Delete)):
+        for t in (n.targets if isinstance(n, (ast.Assign, ast.Delete)) else [n.target]):
           for x in ast.walk(t):
             if isinstance(x, ast.Attribute) and isinstance(x.ctx, ast.Store) and (dotted(x) or '').startswith('self.'):
+              bad.append(n)
+            # self.table[key] = ... : state kept on the router between lookups (a memo of earlier answers)
+            if isinstance(x, ast.Subscript) and isinstance(x.ctx, (ast.Store, ast.Del)) and (dotted(x.value) or '').startswith('self.'):
               bad.append(n)
       if isinstance(n, ast.Call) and isinstance(n.func, ast.Attribute) and (dotted(n.func.value) or '').startswith('self.') and \
          n.func.attr in ('append', 'add', 'pop', 'remove', 'discard', 'clear', 'sort', 'insert', 'update'):
